@@ -381,7 +381,9 @@ func TestC15_CallerHeaders(t *testing.T) {
 		extra := rapid.SampledFrom([]jws.Headers{nil, {"b64": false}, {"b64": true}, {"typ": "JWT"}, {"cty": "json", "b64": false},
 			{"b64": false, "crit": []string{"b64"}}, {"b64": true, "crit": []interface{}{"b64"}}, {"typ": "JWT", "crit": []string{"typ"}}}).Draw(t, "extra")
 		signer := libSignerFor(k, k.Type.Alg(), kid)
-		sig, err := jwsutil.NewJWS(extra, nil, payload, signer)
+		// unprotected headers are not part of a compact JWS and not signed: giving some changes nothing about the round trip
+		unprotected := rapid.SampledFrom([]jws.Headers{nil, nil, {}, {"jku": "https://keys.example/set.json"}, {"x-note": "unsigned", "jku": "https://k.example"}}).Draw(t, "unprotected")
+		sig, err := jwsutil.NewJWS(extra, unprotected, payload, signer)
 		if err != nil {
 			t.Fatalf("C15 NewJWS(%v): %v", extra, err)
 		}
@@ -416,7 +418,7 @@ func TestC15_CallerHeaders(t *testing.T) {
 			t.Fatalf("C15 %s: JWS with protected headers %v verifies after a payload bit changed", k.Name, extra)
 		}
 		_, hasB64 := extra["b64"]
-		st.Case(hasB64, fmt.Sprint("hdr|", k.Name, extra, payload), "caller-headers", fmt.Sprintf("caller-headers-%v", extra))
+		st.Case(hasB64 || len(unprotected) > 0, fmt.Sprint("hdr|", k.Name, extra, unprotected, payload), "caller-headers", fmt.Sprintf("caller-headers-%v", extra), fmt.Sprintf("unprotected-%d", len(unprotected)))
 	})
 }
 
